@@ -261,6 +261,6 @@ func init() {
 		Level:       "other",
 		Explanation: "Structural necessary conditions of in-flight deduplication, decided on all paths of the current source: lookup-miss and insert form one critical section; insert guarded by !DoNotCache; deletion removes only the completing task's own entry and happens exactly where the final response is stored; a departing operation completes the task only when it is the last. Does not decide the behaviour over all arrival orders (history property).",
 		Assumptions: []string{"the scheduler state is only touched under the big lock (decided by C01)", "anchors are the struct fields InMemoryBuildQueue.inFlightDeduplicationMap, task.operations, task.executeResponse"},
-		Rules:       []RuleFunc{c03Region, c03GuardSym, c03Final, c03Last, schedWaiters, schedOpsKey, schedHeapMembership, schedExecutingCount, schedAllOperations, schedHeapPopResets},
+		Rules:       []RuleFunc{c03Region, c03GuardSym, c03Final, c03Last, schedWaiters, schedOpsKey, schedHeapMembership, schedExecutingCount, schedAllOperations, schedHeapPopResets, schedRevalidateAfterRelock},
 	})
 }
